@@ -154,6 +154,9 @@ pub struct SenderTrace {
     pub finished: bool,
     pub wire_errors: Vec<String>,
     pub fdt_xml_at_end: Option<Vec<u8>>,
+    /// allocator's reserved-TOI count at the end (hook) and handles the driver still holds
+    pub toi_reserved_at_end: usize,
+    pub handles_held_at_end: usize,
 }
 
 pub struct GapGen {
@@ -493,6 +496,8 @@ impl Driver {
             .fdt_xml_data(systime_us(self.trace.end_us.max(t0_us())))
             .ok();
         self.trace.sub = self.sub.events.lock().unwrap().clone();
+        self.trace.toi_reserved_at_end = self.sender.verif_toi_reserved_count();
+        self.trace.handles_held_at_end = self.handles.iter().filter(|h| h.is_some()).count();
         {
             let mut c = self.ctx.borrow_mut();
             c.sim_ms += (self.trace.end_us.saturating_sub(t0_us())) / 1000;
